@@ -190,6 +190,39 @@ pub fn check_case(ctx: &mut Ctx, case: &Case) {
                 aisle::write(conf, &mut buf).expect("write to Vec");
                 String::from_utf8(buf).expect("utf8")
             });
+            // the same configuration through writers that take only part of what they are offered (pipes, sockets, slices):
+            // the text must arrive complete, or the call must fail
+            if let Ok(written) = &rt {
+                struct Chunky(Vec<u8>, usize);
+                impl std::io::Write for Chunky {
+                    fn write(&mut self, b: &[u8]) -> std::io::Result<usize> {
+                        let n = b.len().min(self.1);
+                        self.0.extend_from_slice(&b[..n]);
+                        Ok(n)
+                    }
+                    fn flush(&mut self) -> std::io::Result<()> {
+                        Ok(())
+                    }
+                }
+                for chunk in [1usize, 7] {
+                    let mut w = Chunky(Vec::new(), chunk);
+                    match crate::core::guarded(|| aisle::write(conf, &mut w).is_ok()) {
+                        Err(p) => ctx.panic_violation(case, "aisle::write(chunked)", p),
+                        Ok(ok) => {
+                            if ok && w.0 != written.as_bytes() {
+                                bad.push(("write_lost_output_on_short_writer", format!("a writer taking {chunk} byte(s) per call received {:?}, write() returned Ok; a Vec receives {written:?}", String::from_utf8_lossy(&w.0))));
+                            } else {
+                                ctx.count("short_writer_ok");
+                            }
+                        }
+                    }
+                }
+                let mut small = vec![0u8; written.len() / 2];
+                let mut slice: &mut [u8] = &mut small;
+                if !written.is_empty() && matches!(crate::core::guarded(|| aisle::write(conf, &mut slice).is_ok()), Ok(true)) {
+                    bad.push(("write_ok_although_output_did_not_fit", format!("{} bytes into a {}-byte slice returned Ok", written.len(), written.len() / 2)));
+                }
+            }
             match rt {
                 Err(p) => ctx.panic_violation(case, "aisle::write", p),
                 Ok(written) => match crate::core::guarded(|| aisle::parse(&written).map(|c| c.categories == conf.categories)) {
